@@ -504,7 +504,8 @@ fn stream_seam_sweep(rep: &mut Report) {
                 if r == 1 && w + w2 > 20000 {
                     continue;
                 }
-                let key = format!("seam w={w},{w2} r={r}");
+              for exact in [false, true] {
+                let key = format!("seam w={w},{w2} r={r}{}", if exact { " read_exact" } else { "" });
                 rep.case(Some(&key));
                 let res: Result<(), String> = rt.block_on(async {
                     let (tx, mut rx) = tokio::sync::mpsc::unbounded_channel();
@@ -538,21 +539,39 @@ fn stream_seam_sweep(rep: &mut Report) {
                     drop(rtx);
                     let mut back = vec![];
                     let mut buf = vec![0u8; r];
-                    loop {
-                        let n = st.read(&mut buf).await.map_err(|e| e.to_string())?;
-                        if n == 0 {
-                            break;
+                    if exact {
+                        // read_exact / read_buf: poll_read is handed a ReadBuf that already holds filled bytes whenever a
+                        // chunk is shorter than what is still wanted
+                        let mut left = want.len();
+                        while left > 0 {
+                            let k = r.min(left);
+                            st.read_exact(&mut buf[..k]).await.map_err(|e| format!("read_exact({k}) with {left} of {} bytes outstanding: {e}", want.len()))?;
+                            back.extend_from_slice(&buf[..k]);
+                            left -= k;
                         }
-                        back.extend_from_slice(&buf[..n]);
+                        let mut acc: Vec<u8> = Vec::with_capacity(16);
+                        let n = st.read_buf(&mut acc).await.map_err(|e| e.to_string())?;
+                        if n != 0 {
+                            return Err(format!("AsyncRead: {n} surplus bytes after everything was read"));
+                        }
+                    } else {
+                        loop {
+                            let n = st.read(&mut buf).await.map_err(|e| e.to_string())?;
+                            if n == 0 {
+                                break;
+                            }
+                            back.extend_from_slice(&buf[..n]);
+                        }
                     }
                     if back != want {
-                        return Err(format!("AsyncRead: {} bytes read for {} delivered", back.len(), want.len()));
+                        return Err(format!("AsyncRead: {} bytes read for {} delivered{}", back.len(), want.len(), if exact { " (read_exact)" } else { "" }));
                     }
                     Ok(())
                 });
                 if let Err(e) = res {
                     rep.violation("C01:stream-seam", &format!("{key}: {e}"), json!({"engine": "IX", "case": key}));
                 }
+              }
             }
         }
     }
